@@ -211,6 +211,9 @@ func (g *groupsGen) stmts(depth int, prefix string, n int) []*Sx {
 			g.probe([]string{"GET", "HEAD", "POST"}, prefix, full)
 		case r < 10:
 			lists := []string{"GET,POST", "GET, PUT ,DELETE", "HEAD", " PATCH"}
+			if rng.Intn(8) == 0 { // lists with an empty or blank-separated entry name an unknown method
+				lists = []string{"GET,", ",GET", "GET,,POST", "GET POST", ","}
+			}
 			var extra []*Sx
 			if rng.Intn(2) == 0 {
 				extra = append(extra, X("OPTIONS"))
